@@ -212,3 +212,58 @@ example :
     let c : UCfg := ⟨["up"], 100, none, [], false⟩
     (store c { writeOk := false } ["up", "a"] [1, 2, 3, 4]).1 = .s40 := by decide
 end Fs
+
+namespace Fs
+/-- C14: anything at all happens to the filesystem only for a request that passed every guard -/
+theorem upload_guarded (os : OS) (c : UCfg) (f : Faults) (r : UReq) (h : (handleUpload os c f r).2 ≠ []) :
+    authOk c r = true ∧ r.size ≤ c.maxSize ∧ typeOk c r = true ∧ (r.size = 0 → c.enableDelete = true) := by
+  unfold handleUpload at h
+  split at h
+  · simp at h
+  · rename_i ha
+    split at h
+    · simp at h
+    · rename_i hs
+      split at h
+      · simp at h
+      · rename_i ht
+        refine ⟨by simpa using ha, by omega, by simpa using ht, ?_⟩
+        intro hz
+        simp only [hz, ↓reduceIte] at h
+        split at h
+        · simp at h
+        · rename_i hd; simpa using hd
+
+/-- C14: what is stored is exactly the declared number of bytes that followed the request line -/
+theorem upload_content (os : OS) (c : UCfg) (f : Faults) (r : UReq) (p : Path) (b : Bytes) (ok : Bool)
+    (h : Effect.writeTemp p b ok ∈ (handleUpload os c f r).2) : b = r.content.take r.size := by
+  unfold handleUpload at h
+  split at h
+  · simp at h
+  · split at h
+    · simp at h
+    · split at h
+      · simp at h
+      · split at h
+        · split at h
+          · simp at h
+          · split at h
+            · simp at h
+            · split at h
+              · simp at h
+              · split at h
+                · simp at h
+                · split at h <;> simp at h
+        · split at h
+          · simp at h
+          · split at h
+            · simp at h
+            · unfold store at h
+              split at h
+              · simp at h
+              · split at h
+                · simp at h; exact h.2.1
+                · split at h
+                  · simp at h; exact h.2.1
+                  · simp at h; exact h.2.1
+end Fs
